@@ -758,8 +758,38 @@ def check(run, project):
                f"attributes() returns `{norm(r.value)[:60]}`: the rows are no longer sorted by mask, descending", module=mod, node=r,
                func="TPM_RC.attributes")
     n2(run, mod, M)
+    try:
+        n3(run, project)
+    except AnalysisError as ex:
+        run.info(f"N3: the pretty printer's bit rows could not be folded ({ex}); not judged here (C17 reports the rows)")
     run.floor("N1", 3000, "code evaluations")
     run.floor("N2", 100, "table entries")
+
+
+def n3(run, project):
+    """N3 "the bit rows shown for a code carry the same classification": the classification attributes() attaches to a row
+    (its details text, decided per code by N1) is what the printer shows in that row - pretty_attrs folded (mini interpreter,
+    C17-M2's fold) over a 32-bit word with one row that has a details text and one that has none: the first row shows its
+    bits followed by that text, the second its bits only."""
+    from .c17 import PRETTY, fold_pretty_attrs
+    mod = project.module(PRETTY)
+    f = mod.functions().get("pretty_attrs")
+    rows = fold_pretty_attrs(project, "TPM_RC", 4, 0x00010001, [("lo", 0x0000FFFF, "DETAILS-LO"), ("hi", 0xFFFF0000, None)])
+    if isinstance(rows, str) and not rows.startswith("raises"):
+        raise AnalysisError(f"N3: {rows}")
+    bits = ("................0000000000000001", "0000000000000001................")
+    ok = why = None
+    if isinstance(rows, str):
+        ok, why = False, f"the printer {rows} for a word whose rows carry a classification"
+    elif len(rows) != 2 or not all(isinstance(r, tuple) and len(r) >= 2 and isinstance(r[-1], str) for r in rows):
+        ok, why = False, f"{len(rows)} rows for 2 masks"
+    else:
+        t0, t1 = rows[0][-1], rows[1][-1]
+        ok = t0.startswith(bits[0]) and "DETAILS-LO" in t0[len(bits[0]):] and t1 == bits[1]
+        why = (f"a row whose mask has the details text 'DETAILS-LO' is printed as {t0!r} and a row without one as {t1!r}: required are "
+               f"the bits {bits[0]!r} followed by the details text, and the bits {bits[1]!r} alone")
+    run.ob("N3", ok, "a bit row shows the classification attributes() attached to it", why, module=mod, node=f, func="pretty_attrs",
+           construct="pretty_attrs details")
 
 
 def _atoms(p):
